@@ -7,7 +7,7 @@
        PROPER PREFIX of the steps of p: a container above its children, a key-less list name above every entry, a
        leading subset of the keys above every entry having them - and never a name that merely shares a textual prefix. *)
 From Coq Require Import List NArith Bool Lia.
-From OC Require Import Base.Bytes Model.Merge Spec.Gnmi Proofs.MergeProofs Proofs.PathProofs.
+From OC Require Import Base.Bytes Model.Merge Spec.Gnmi Proofs.MergeProofs Proofs.TextPathProofs.
 Import ListNotations.
 Open Scope N_scope.
 
